@@ -94,6 +94,7 @@ pub fn make(d: &Value) -> Val {
         "sparse" => { let (len, runs) = ones_runs(d); Val::Sparse(bv::sparse_builder(len, &runs)) },
         "rl" => { let (len, runs) = ones_runs(d); Val::RL(bv::rl_runs(len, &runs)) },
         "wmcore" => Val::WMCore(WMCore::from(d["vals"].as_array().unwrap().iter().map(|x| x.as_u64().unwrap()).collect::<Vec<u64>>())),
+        "wmcore64" => Val::WMCore(WMCore::from(d["vals"].as_array().unwrap().iter().map(set_to_u64).collect::<Vec<u64>>())),
         "wm" => Val::WM(WaveletMatrix::from(d["vals"].as_array().unwrap().iter().map(|x| x.as_u64().unwrap()).collect::<Vec<u64>>())),
         t => panic!("TOOL-ERROR: unknown value type {}", t),
     }
@@ -316,7 +317,7 @@ fn random_val(rng: &mut Rng) -> (Val, Value) {
         10 => { let n = rng.below(100000); let runs = random_runs(rng, n); (Val::Sparse(bv::sparse_builder(n, &runs)), json!({"t": "sparse", "n": n})) },
         11 => { let n = rng.below(100000); let runs = random_runs(rng, n); (Val::RL(bv::rl_runs(n, &runs)), json!({"t": "rl", "n": n})) },
         12 => { let n = rng.below(400); let w = rng.range(1, 9); (Val::WM(WaveletMatrix::from((0..n).map(|_| rng.below(1 << w) as u64).collect::<Vec<u64>>())), json!({"t": "wm", "n": n})) },
-        _ => { let n = rng.below(400); let w = rng.range(1, 9); (Val::WMCore(WMCore::from((0..n).map(|_| rng.below(1 << w) as u64).collect::<Vec<u64>>())), json!({"t": "wmcore", "n": n})) },
+        _ => { let n = rng.below(400); let w = *rng.pick(&[1usize, 3, 9, 17, 33, 63, 64]); (Val::WMCore(WMCore::from((0..n).map(|_| if w == 64 { rng.next() } else { rng.next() & ((1u64 << w) - 1) }).collect::<Vec<u64>>())), json!({"t": "wmcore", "n": n})) },
     }
 }
 
